@@ -137,6 +137,7 @@ class Interp:
                     c.attrs[st.name] = ("static", fn)
                 else:
                     c.attrs[st.name] = fn
+                frame.vars[st.name] = fn       # later class-body statements may refer to it (M = property(_getM))
             elif isinstance(st, ast.Assign):
                 try:
                     v = self.eval(st.value, frame)
@@ -625,7 +626,16 @@ class Interp:
                 self.restore(snap1)
                 return True
             return live2
-        items = self.lib.iterate(self, it)
+        from .symval import GenVal
+        if isinstance(it, GenVal):
+            def lazily(g=it):
+                # a generator/iterator is consumed item by item (the body may call next() on it)
+                while g.pos < len(g.items):
+                    g.pos += 1
+                    yield g.items[g.pos - 1]
+            items = lazily()
+        else:
+            items = self.lib.iterate(self, it)
         breaks = []          # (absolute path condition, state at the break)
         cur_pc = pc
         live = True
@@ -861,6 +871,16 @@ class Interp:
 
     def e_Call(self, n, f):
         fn = self.eval(n.func, f)
+        if isinstance(fn, Builtin) and fn.name == "eval":
+            # eval of a *concrete* string: parsed and evaluated in the calling scope by this interpreter
+            src_ = self.eval(n.args[0], f)
+            if not isinstance(src_, str):
+                raise AnalysisError("eval of a non-constant string")
+            try:
+                tree = ast.parse(src_.strip(), mode="eval")
+            except SyntaxError:
+                raise SymRaise("SyntaxError", src_[:40])
+            return self.eval(tree.body, f)
         args = self._elts(n.args, f)
         kwargs = {}
         for k in n.keywords:
